@@ -71,6 +71,27 @@ CHECKS = {
                      "tile the token list, each consume at least one token, be exactly as many as the derivation has lines, start in column 1, end with NEWLINE, and the scope must be "
                      "back at file level after each function; unrecognisable fragments inserted at statement boundaries must end in a fatal diagnostic.",
                 note="observation by wrapping Context.pop_tokens (harness-side); rule-kind equality is a soft check"),
+    "C02": dict(ref="§4.2", tech="TLC exploration of Viol.tla (Norm.tla + 62 violation operators, one applied at one site; simulation + exhaustive (operator, site) pairs over small structures) + replay",
+                text="A completed conforming derivation receives exactly one operator of the violation catalogue at one applicable site; the state records the code(s) that must be "
+                     "reported, the line, and a description of the site. TLC explores random (program, operator, site) triples over the full grammar and every pair over every small "
+                     "body structure. Each program is run: the code must be on the predicted line, the status Error, the CLI exit status non-zero. Misses are violations unless the "
+                     "(operator, site class) is a listed finding.",
+                note="operators calibrated against the Norm text (DESIGN 4.2); known findings keyed by operator and site class"),
+    "C03": dict(ref="§4.3", tech="TLC enumeration of Limits.tla (complete product limit x measure x context, MeasureOK through the specification's width/count functions) + replay with iff oracle",
+                text="For each limit and each measure n in [L-3, L+6] and each context, Limits.tla builds one derivation from Norm.tla's line constructors; TLC enumerates the whole product and "
+                     "checks that the measure computed by the specification (visual width with 4-column tab stops, counts) is n. Each derivation is run with several spellings: the limit "
+                     "diagnostic must be on the expected line if and only if n > L.",
+                note="700+ cases; contexts listed in the evidence rule"),
+    "C13": dict(ref="§4.13", tech="TLC enumeration of Header42.tla (template as 80-column abstract lines, HeaderOK recogniser, 31 structural mutations) + replay counting INVALID_HEADER",
+                text="The stdheader template is a sequence of abstract lines whose widths TLC checks to be exactly 80 for every shape; the intended recogniser accepts it and rejects every "
+                     "structural mutation. Every (shape, mutation, body) is rendered with several spellings of the fields and run: INVALID_HEADER must appear 0 times for an unmutated header "
+                     "(also when a comment or code follows it directly) and exactly once for every mutation.",
+                note="shapes: 5 covering (quick) / all combinations of the length classes (thorough)"),
+    "C14": dict(ref="§4.14", tech="TLC enumeration of Guard.tla (Guard(name) over character sequences, 15 guard cases per name, .c twins) + replay under that file name",
+                text="Guard(name) is defined in the specification; TLC enumerates every header base name of a small alphabet (double dots, trailing underscores) and every guard case and checks the "
+                     "symbols are well formed and the mutated ones differ. Each case is run under that file name: the demanded HEADER_PROT_* code must sit on the demanded directive, a correct "
+                     "guard and every .c twin must give none.",
+                note="names of length 1..2 (quick) / 1..3 (thorough) + '.h'; names starting with a digit or a dot are outside the domain"),
 }
 
 NOT_YET = {
